@@ -10,4 +10,5 @@ KNOWN_OPEN = 'F15'
 def jobs(tier, ws):
     js = [j for j in C05.jobs(tier, ws, prop='C13') if 'put_varm' in j.name]
     js += [j for j in C02.cancel_jobs(tier, 'C13') if '/put/' in j.name]
+    js += C02.commit_jobs(tier, 'C13', only=[(2, 1), (3, 2)] if tier == 'quick' else None)   # buffers released / swapped back exactly for the completed requests
     return js
